@@ -302,8 +302,10 @@ pub fn gen_doc(r: &mut Rng, o: &GOpts) -> GDoc {
                         feats.push("multi-line");
                         for _ in 0..r.range(1, o.max_lines.max(1)) {
                             if o.blank_continuations && r.chance(1, 4) {
-                                t.push('\n');
-                                t.push_str(*r.pick(&[" ", "\t", "  "]));
+                                for _ in 0..r.range(1, 3) {
+                                    t.push('\n');
+                                    t.push_str(*r.pick(&[" ", "\t", "  "]));
+                                }
                                 feats.push("blank-continuation");
                             }
                             let ind = *r.pick(&INDENTS);
@@ -313,6 +315,14 @@ pub fn gen_doc(r: &mut Rng, o: &GOpts) -> GDoc {
                             t.push_str(&l);
                             lines.push(l);
                         }
+                    }
+                    // whitespace-only continuation lines after the last line of the value (one or a run)
+                    if o.blank_continuations && r.chance(1, 5) {
+                        for _ in 0..r.range(1, 3) {
+                            t.push('\n');
+                            t.push_str(*r.pick(&[" ", "\t", "  "]));
+                        }
+                        feats.push("trailing-blank-continuation");
                     }
                 }
             }
@@ -357,10 +367,14 @@ pub fn gen_doc(r: &mut Rng, o: &GOpts) -> GDoc {
 
 // ---------------------------------------------------------------- mutators (X)
 
-pub const MUTATIONS: [&str; 10] = [
+pub const MUTATIONS: [&str; 11] = [
     "delete-char", "dup-char", "insert-class", "delete-line", "dup-line", "swap-lines", "truncate",
-    "crlf", "cr", "splice",
+    "crlf", "cr", "splice", "insert-special",
 ];
+
+/// Characters that text tools like to treat specially although the formats do not: byte order mark, NUL, vertical
+/// tab, NEL, no-break space, zero-width space, line/paragraph separators, ideographic space.
+pub const SPECIALS: [char; 10] = ['\u{feff}', '\0', '\u{b}', '\u{85}', '\u{a0}', '\u{200b}', '\u{2028}', '\u{2029}', '\u{3000}', '\u{1c}'];
 
 /// Apply one mutation; returns its name. Always yields valid UTF-8.
 pub fn mutate(r: &mut Rng, text: &str, other: &str) -> (String, &'static str) {
@@ -388,6 +402,18 @@ pub fn mutate(r: &mut Rng, text: &str, other: &str) -> (String, &'static str) {
             let sym = *r.pick(&DEB_ALPHABET);
             let mut s: String = chars[..i].iter().collect();
             s.push_str(sym);
+            s.extend(chars[i..].iter());
+            s
+        }
+        "insert-special" => {
+            // at the very start (where a byte order mark would sit), at the very end, or anywhere
+            let i = match r.below(4) {
+                0 | 1 => 0,
+                2 => chars.len(),
+                _ => r.below(chars.len() + 1),
+            };
+            let mut s: String = chars[..i].iter().collect();
+            s.push(*r.pick(&SPECIALS));
             s.extend(chars[i..].iter());
             s
         }
